@@ -36,7 +36,7 @@ def go_suite(wt, module):
     else:
         rc, out = sh("go test -vet=off -count=1 ./...", cwd=os.path.join(wt, module))
     lines = [l for l in out.splitlines() if l.startswith(("ok", "FAIL", "---", "panic"))]
-    fails = [l for l in lines if l.startswith("FAIL")]
+    fails = [l for l in lines if l.startswith("FAIL\t")]
     bad = [l for l in fails if not any(k in l for k in KNOWN_BASELINE_FAIL)]
     return not bad, lines
 
